@@ -89,6 +89,12 @@ def _followups(view_dump, rnd, keys, cidx, selfcopy, k=N_FOLLOWUP):
     return [rnd.choice([o for o in ops if o[0] == k0])]
 
 
+def LC_patch_index(p):
+    from rac.lifecycle import patch_index
+
+    return patch_index(p)
+
+
 def _merge_case(args):
     """Worker: all C05 checks for ONE (class, source history, follow-up ops). Returns dict(evals, fails=[{kind, what}], ...)."""
     clsname, history, followup = args["cls"], args["history"], args.get("followup")
@@ -140,7 +146,19 @@ def _merge_case(args):
             return out
         if reopened_variant:  # merge from a freshly opened read-only object instead of the creating one
             src.close()
-            st, val = _guarded(lambda: cls(sdir / "rec", "r"))
+            files_now = sorted(sdir.glob("rec*.ih5"))
+            mfs = [Path(str(p) + "mf.json") for p in files_now]
+            if clsname == "IH5MFRecord" and len(history) % 2 == 0 and mfs and all(m.is_file() for m in mfs):
+                # manifests kept elsewhere: the record is opened from an explicit file list with manifest_file=
+                elsewhere = d / "manifests"
+                elsewhere.mkdir()
+                newest = max(files_now, key=lambda p: LC_patch_index(p))
+                moved = elsewhere / (newest.name + "mf.json")
+                Path(str(newest) + "mf.json").rename(moved)
+                st, val = _guarded(lambda: cls(list(files_now), "r", manifest_file=moved))
+                out["notes"].append("manifest-elsewhere")
+            else:
+                st, val = _guarded(lambda: cls(sdir / "rec", "r"))
             if st != "ok":
                 out["skipped"] = f"reopen of source failed: {st} {val!r}"
                 return out
